@@ -12,7 +12,7 @@
    parse_header_annotations                 parse_header_annotations
    represents_integer / int(field)          py_int
    dict_to_list                             dict_to_list
-   model_from_headers_rec                   infer_rec (fuel) / infer
+   model_from_headers_rec                   infer_rec_at (fuel) / infer_at; infer = the tree at hand
    model_from_headers                       model_from_headers
 
    Not modelled (the generators stay away, see design.d/C18.md): pydantic's own field-name
@@ -253,11 +253,25 @@ Definition sdict (T : Type) : Type := list (str * T).
 Definition sget {T} (d : sdict T) (k : str) : option T := oget str_eqb d k.
 Definition sset {T} (d : sdict T) (k : str) (v : T) : sdict T := oset str_eqb d k v.
 
-(* first loop: plain headers go to [fields], dotted ones are grouped under their first segment *)
-Definition step (acc : sdict model * sdict (list str)) (h : str)
+(* Where the header separator is looked for.  [by_name = false]: in the whole header,
+   annotations included (`if HEADER_FIELD_SEPARATOR in header`: the tree with the defect
+   default-contains-dot).  [by_name = true]: in the field name only
+   (`if HEADER_FIELD_SEPARATOR in get_field_name(header)`: the repaired tree).  The behaviour of
+   the tree at hand is the regenerated constant [inf_nested_by_field_name] (probed by the
+   translator); [step]/[infer_rec]/[infer] below are the mirror of the tree at hand, the
+   [_at] functions mirror both. *)
+Definition is_nested (by_name : bool) (h : str) : bool :=
+  mem_char inf_hdr_sep (if by_name then get_field_name h else h).
+
+(* field, subheader = header.split(HEADER_FIELD_SEPARATOR, 1) for a nested header *)
+Definition hsplit (by_name : bool) (h : str) : option (str * str) :=
+  if is_nested by_name h then split_first inf_hdr_sep h else None.
+
+(* first loop: plain headers go to [fields], nested ones are grouped under their first segment *)
+Definition step_at (by_name : bool) (acc : sdict model * sdict (list str)) (h : str)
   : result ierr (sdict model * sdict (list str)) :=
   let (fields, complex) := acc in
-  match split_first inf_hdr_sep h with
+  match hsplit by_name h with
   | Some (field, sub) =>
     let old := match sget complex field with Some l => l | None => [] end in
     Ok (fields, sset complex field (old ++ [sub]))
@@ -291,15 +305,15 @@ Definition finish (fields : sdict model) : result ierr model :=
     end
   end.
 
-Fixpoint infer_rec (fuel : nat) (headers : list str) : result ierr model :=
+Fixpoint infer_rec_at (by_name : bool) (fuel : nat) (headers : list str) : result ierr model :=
   match fuel with
   | O => Err EOutOfFuel
   | S f =>
-    match foldM step headers ([], []) with
+    match foldM (step_at by_name) headers ([], []) with
     | Err e => Err e
     | Ok (fields, complex) =>
       match foldM (fun (fs : sdict model) (c : str * list str) =>
-                     match infer_rec f (snd c) with
+                     match infer_rec_at by_name f (snd c) with
                      | Err e => Err e
                      | Ok m => Ok (sset fs (fst c) m)
                      end) complex fields with
@@ -311,11 +325,41 @@ Fixpoint infer_rec (fuel : nat) (headers : list str) : result ierr model :=
 
 Definition max_len (hs : list str) : nat := fold_right (fun h m => Nat.max (length h) m) O hs.
 
-Definition infer (headers : list str) : result ierr model :=
-  infer_rec (S (max_len headers)) headers.
+Definition infer_at (by_name : bool) (headers : list str) : result ierr model :=
+  infer_rec_at by_name (S (max_len headers)) headers.
+
+(* the mirror of the tree at hand *)
+Definition step := step_at inf_nested_by_field_name.
+Definition infer_rec := infer_rec_at inf_nested_by_field_name.
+Definition infer : list str -> result ierr model := infer_at inf_nested_by_field_name.
 
 Definition model_from_headers (headers : list str) : result ierr ty :=
   match infer headers with Ok (t, _) => Ok t | Err e => Err e end.
+
+(* ---- vocabulary of the order theorems (props/C18.v, 3) *)
+Fixpoint str_in (k : str) (l : list str) : bool :=
+  match l with [] => false | x :: r => str_eqb x k || str_in k r end.
+
+Definition plain_of (bn : bool) (hs : list str) : list str := filter (fun h => negb (is_nested bn h)) hs.
+Definition dotted_of (bn : bool) (hs : list str) : list str := filter (is_nested bn) hs.
+(* the header list with the plain columns moved to the front, both groups in their order *)
+Definition stable_partition (bn : bool) (hs : list str) : list str := plain_of bn hs ++ dotted_of bn hs.
+
+(* (prefix, sub-header) of every nested column, in column order *)
+Definition pairs_of (bn : bool) (hs : list str) : list (str * str) :=
+  flat_map (fun h => match hsplit bn h with Some p => [p] | None => [] end) hs.
+
+(* keys in order of first appearance *)
+Definition add_key (seen : list str) (k : str) : list str := if str_in k seen then seen else seen ++ [k].
+Definition add_keys (seen l : list str) : list str := fold_left add_key l seen.
+Definition first_occ (l : list str) : list str := add_keys [] l.
+
+(* the sub-headers of prefix [k], in column order *)
+Definition subs_for (k : str) (ps : list (str * str)) : list str :=
+  map snd (filter (fun p : str * str => str_eqb (fst p) k) ps).
+
+Definition prefixes (bn : bool) (hs : list str) : list str := first_occ (map fst (pairs_of bn hs)).
+Definition subs_of (bn : bool) (k : str) (hs : list str) : list str := subs_for k (pairs_of bn hs).
 
 (* ---- the family of the theorems (hypotheses as boolean functions, so that the
    correspondence can evaluate them on the generated schemas) *)
@@ -345,32 +389,34 @@ Definition leaf_ok (l : leaf) : bool :=
   | _ => true
   end.
 
-Fixpoint str_in (k : str) (l : list str) : bool :=
-  match l with [] => false | x :: r => str_eqb x k || str_in k r end.
 Fixpoint nodup_names (l : list str) : bool :=
   match l with [] => true | x :: r => negb (str_in x r) && nodup_names r end.
 
 Definition nonempty {T} (l : list T) : bool := match l with [] => false | _ => true end.
 
-Fixpoint wf_sty (s : sty) : bool :=
+(* [lok]: what is asked of a plain column (see [leaf_ok], [leaf_ok_full]) *)
+Fixpoint wf_sty_gen (lok : leaf -> bool) (s : sty) : bool :=
   match s with
-  | SLeaf p l => pads_ok p && leaf_ok l
+  | SLeaf p l => pads_ok p && lok l
   | SSpread es =>
     nonempty es
     && (forallb is_leafb es || forallb (fun e => negb (is_leafb e)) es)
-    && forallb wf_sty es
+    && forallb (wf_sty_gen lok) es
   | SRec fs =>
     nonempty fs
     && forallb (fun nt : str * sty => field_name_ok (fst nt)) fs
     && nodup_names (map fst fs)
-    && forallb (fun nt : str * sty => wf_sty (snd nt)) fs
+    && forallb (fun nt : str * sty => wf_sty_gen lok (snd nt)) fs
   end.
 
 (* the top level may be empty (a sheet without columns gives an empty class) *)
-Definition wf_schema (sc : schema) : bool :=
+Definition wf_schema_gen (lok : leaf -> bool) (sc : schema) : bool :=
   forallb (fun nt : str * sty => field_name_ok (fst nt)) sc
   && nodup_names (map fst sc)
-  && forallb (fun nt : str * sty => wf_sty (snd nt)) sc.
+  && forallb (fun nt : str * sty => wf_sty_gen lok (snd nt)) sc.
+
+Definition wf_sty : sty -> bool := wf_sty_gen leaf_ok.
+Definition wf_schema : schema -> bool := wf_schema_gen leaf_ok.
 
 (* what the proofs need to know about the regenerated tables *)
 Definition sep_plain (c : char) : bool :=
@@ -402,3 +448,23 @@ Definition infer_tables_ok : bool :=
   && forallb (fun c => negb (is_ws c)) (inf_generic_name ++ [inf_generic_open; inf_generic_close])
   (* str_to_bool: "True" -> True, "False" -> False *)
   && str_to_bool s_True && negb (str_to_bool s_False).
+
+(* ---- the family at full strength: "f=v carries a default" read literally, i.e. WITHOUT the
+   restriction that the default has no header separator (a period).  Everything else as in
+   [leaf_ok]/[wf_sty]/[wf_schema].  The headline theorem is decided for this family in
+   props/C18.v (it fails on the tree whose model_from_headers_rec looks for the header
+   separator in the whole header, annotations included: finding default-contains-dot). *)
+Definition leaf_ok_full (l : leaf) : bool :=
+  match l with
+  | LStr e (Some d) => stripped d && (e || no_char inf_ann_sep d)
+  | LFloat (Some d) => is_float_lit d && stripped d
+  | _ => true
+  end.
+
+Definition wf_sty_full : sty -> bool := wf_sty_gen leaf_ok_full.
+Definition wf_schema_full : schema -> bool := wf_schema_gen leaf_ok_full.
+
+(* ---- contentindexparser._get_new_data_sheet without a data_model: the row model of a data
+   sheet is model_from_headers(sheet_name, data_table.headers); the rows are not an argument *)
+Record data_table := mk_table { dt_headers : list str; dt_rows : list (list str) }.
+Definition sheet_model (t : data_table) : result ierr ty := model_from_headers (dt_headers t).
